@@ -56,6 +56,20 @@ pub struct Exchange {
     pub client_split: bool,
     /// 0 = read everything then respond, 1 = respond then read, 2 = split halves on two tasks
     pub server_shape: u8,
+    /// C14 only: the client drops its stream after this many send_data calls (no finish)
+    pub client_abort: Option<usize>,
+    /// C14 only: the server handler drops its stream after send_response and this many send_data calls
+    pub server_abort: Option<usize>,
+}
+
+#[derive(Debug, Clone, Copy, Default)]
+pub struct EndConfig {
+    pub grease: bool,
+    pub max_field_section_size: Option<u64>,
+    pub webtransport: bool,
+    pub extended_connect: bool,
+    pub datagram: bool,
+    pub max_wt_sessions: Option<u64>,
 }
 
 #[derive(Debug, Clone)]
@@ -66,7 +80,11 @@ pub struct Scenario {
     pub credit: [u64; 2],
     pub client_bidi_credit: u64,
     pub uni_credit: [u64; 2],
-    pub grease: [bool; 2],
+    pub config: [EndConfig; 2],
+    /// C14 only: (after this many accepted requests, shutdown(n))
+    pub server_shutdowns: Vec<(usize, usize)>,
+    /// C14 only: the client driver calls shutdown(0) before polling
+    pub client_shutdown: bool,
 }
 
 /// header that tells the server application which exchange a request belongs to (requests opened
@@ -286,7 +304,7 @@ pub fn gen_style(t: &mut Tape) -> Style {
     }
 }
 
-fn gen_scenario(t: &mut Tape) -> Scenario {
+pub fn gen_scenario(t: &mut Tape) -> Scenario {
     let style = gen_style(t);
     let n = *t.choose(&[1usize, 1, 1, 2, 2, 3]);
     let body_max = if style == Style::Tiny { 3000 } else { 65536 };
@@ -295,7 +313,7 @@ fn gen_scenario(t: &mut Tape) -> Scenario {
             let mut req = gen_request(t, body_max);
             let pos = t.pick(req.msg.fields.len() + 1);
             req.msg.fields.insert(pos, (MARK.to_string(), k.to_string().into_bytes()));
-            Exchange { req, resp: gen_response(t, body_max), client_split: t.chance(1, 3), server_shape: t.pick(3) as u8 }
+            Exchange { req, resp: gen_response(t, body_max), client_split: t.chance(1, 3), server_shape: t.pick(3) as u8, client_abort: None, server_abort: None }
         })
         .collect();
     Scenario {
@@ -305,8 +323,31 @@ fn gen_scenario(t: &mut Tape) -> Scenario {
         credit: [gen_credit(t), gen_credit(t)],
         client_bidi_credit: if t.chance(1, 4) { 0 } else { UNLIMITED },
         uni_credit: [if t.chance(1, 5) { t.int(0, 3) } else { UNLIMITED }, if t.chance(1, 5) { t.int(0, 3) } else { UNLIMITED }],
-        grease: [t.bool(), t.bool()],
+        config: [EndConfig { grease: t.bool(), ..Default::default() }, EndConfig { grease: t.bool(), ..Default::default() }],
+        server_shutdowns: Vec::new(),
+        client_shutdown: false,
     }
+}
+
+pub fn server_builder(c: &EndConfig) -> h3::server::Builder {
+    let mut b = h3::server::builder();
+    b.send_grease(c.grease).enable_webtransport(c.webtransport).enable_extended_connect(c.extended_connect).enable_datagram(c.datagram);
+    if let Some(m) = c.max_field_section_size {
+        b.max_field_section_size(m);
+    }
+    if let Some(m) = c.max_wt_sessions {
+        b.max_webtransport_sessions(m);
+    }
+    b
+}
+
+pub fn client_builder(c: &EndConfig) -> h3::client::Builder {
+    let mut b = h3::client::builder();
+    b.send_grease(c.grease).enable_extended_connect(c.extended_connect).enable_datagram(c.datagram);
+    if let Some(m) = c.max_field_section_size {
+        b.max_field_section_size(m);
+    }
+    b
 }
 
 pub fn build_request(r: &ReqSpec) -> http::Request<()> {
@@ -324,16 +365,16 @@ pub fn build_response(r: &RespSpec) -> http::Response<()> {
     resp
 }
 
-struct World {
+pub struct World {
     /// per exchange index: client side observation, server side observation
-    client: Vec<Shared<ExchangeObs>>,
-    server: Vec<Shared<ExchangeObs>>,
-    server_driver: Shared<DriverObs>,
-    client_driver: Shared<DriverObs>,
+    pub client: Vec<Shared<ExchangeObs>>,
+    pub server: Vec<Shared<ExchangeObs>>,
+    pub server_driver: Shared<DriverObs>,
+    pub client_driver: Shared<DriverObs>,
     /// outstanding client tasks
-    outstanding: Rc<Cell<usize>>,
-    master: Rc<RefCell<Option<SendReq>>>,
-    unmatched: Shared<Vec<String>>,
+    pub outstanding: Rc<Cell<usize>>,
+    pub master: Rc<RefCell<Option<SendReq>>>,
+    pub unmatched: Shared<Vec<String>>,
 }
 
 async fn server_handler(resolver: Resolver, exchanges: Vec<Exchange>, obs: Vec<Shared<ExchangeObs>>, unmatched: Shared<Vec<String>>, sp: Spawner) {
@@ -355,6 +396,18 @@ async fn server_handler(resolver: Resolver, exchanges: Vec<Exchange>, obs: Vec<S
         let mut g = o.borrow_mut();
         g.stream_id = Some(stream.id().into_inner());
         record_request(&mut g.recv, &req);
+    }
+    if let Some(k) = ex.server_abort {
+        // respond partially, then drop the stream between calls
+        if stream.send_response(build_response(&ex.resp)).await.is_ok() {
+            for p in ex.resp.msg.pieces.iter().take(k) {
+                if stream.send_data(Bytes::from(p.clone())).await.is_err() {
+                    break;
+                }
+            }
+        }
+        o.borrow_mut().send.calls_ok.push("aborted".into());
+        return;
     }
     match ex.server_shape {
         0 => {
@@ -396,9 +449,8 @@ async fn server_handler(resolver: Resolver, exchanges: Vec<Exchange>, obs: Vec<S
     }
 }
 
-async fn server_main(net: Net, grease: bool, exchanges: Vec<Exchange>, world_server: Vec<Shared<ExchangeObs>>, d: Shared<DriverObs>, unmatched: Shared<Vec<String>>, sp: Spawner) {
-    let mut b = h3::server::builder();
-    b.send_grease(grease);
+async fn server_main(net: Net, cfg: EndConfig, shutdowns: Vec<(usize, usize)>, exchanges: Vec<Exchange>, world_server: Vec<Shared<ExchangeObs>>, d: Shared<DriverObs>, unmatched: Shared<Vec<String>>, sp: Spawner) {
+    let b = server_builder(&cfg);
     let mut conn: ServerConn = match b.build(net.conn(Side::Server)).await {
         Ok(c) => c,
         Err(e) => {
@@ -407,9 +459,19 @@ async fn server_main(net: Net, grease: bool, exchanges: Vec<Exchange>, world_ser
         }
     };
     d.borrow_mut().built = true;
+    let mut accepted = 0usize;
     loop {
+        for (after, n) in &shutdowns {
+            if *after == accepted {
+                if let Err(e) = conn.shutdown(*n).await {
+                    d.borrow_mut().accepts.push(Err(conn_info(&e)));
+                    return;
+                }
+            }
+        }
         match conn.accept().await {
             Ok(Some(resolver)) => {
+                accepted += 1;
                 let id = resolver.frame_stream.id().into_inner();
                 d.borrow_mut().accepts.push(Ok(Some(id)));
                 sp.spawn(format!("server-handler-{id}"), server_handler(resolver, exchanges.clone(), world_server.clone(), unmatched.clone(), sp.clone()));
@@ -448,6 +510,15 @@ async fn client_exchange(mut sr: SendReq, ex: Exchange, o: Shared<ExchangeObs>, 
         g.stream_id = Some(stream.id().into_inner());
         g.send.calls_ok.push("send_request".into());
     }
+    if let Some(k) = ex.client_abort {
+        for p in ex.req.msg.pieces.iter().take(k) {
+            if stream.send_data(Bytes::from(p.clone())).await.is_err() {
+                break;
+            }
+        }
+        o.borrow_mut().send.calls_ok.push("aborted".into());
+        return;
+    }
     if ex.client_split {
         let (mut tx, mut rx) = stream.split();
         outstanding.set(outstanding.get() + 1);
@@ -482,9 +553,8 @@ async fn client_exchange(mut sr: SendReq, ex: Exchange, o: Shared<ExchangeObs>, 
 
 async fn client_main(net: Net, sc: Scenario, clients: Vec<Shared<ExchangeObs>>, d: Shared<DriverObs>, sp: Spawner, outstanding: Rc<Cell<usize>>, master: Rc<RefCell<Option<SendReq>>>) {
     let _done = Done(outstanding.clone());
-    let mut b = h3::client::builder();
-    b.send_grease(sc.grease[0]);
-    let (conn, sr): (ClientConn, SendReq) = match b.build(net.conn(Side::Client)).await {
+    let mut b = client_builder(&sc.config[0]);
+    let (mut conn, sr): (ClientConn, SendReq) = match b.build(net.conn(Side::Client)).await {
         Ok(x) => x,
         Err(e) => {
             d.borrow_mut().build_error = Some(conn_info(&e));
@@ -492,6 +562,9 @@ async fn client_main(net: Net, sc: Scenario, clients: Vec<Shared<ExchangeObs>>, 
         }
     };
     d.borrow_mut().built = true;
+    if sc.client_shutdown {
+        let _ = conn.shutdown(0).await;
+    }
     sp.spawn("client-driver", client_driver(conn, d.clone()));
     if sc.concurrent {
         for (k, ex) in sc.exchanges.iter().enumerate() {
@@ -524,7 +597,7 @@ impl Actor for Closer {
     }
 }
 
-fn scenario_json(sc: &Scenario) -> Value {
+pub fn scenario_json(sc: &Scenario) -> Value {
     json!({
         "style": format!("{:?}", sc.style), "concurrent": sc.concurrent, "credit": sc.credit.iter().map(|c| if *c == UNLIMITED { -1 } else { *c as i64 }).collect::<Vec<_>>(),
         "client_bidi_credit": if sc.client_bidi_credit == UNLIMITED { -1 } else { sc.client_bidi_credit as i64 },
@@ -591,8 +664,14 @@ fn run_tape(tape: &[u16], ctx: &mut Ctx) -> Verdict {
     run_scenario(&sc, &mut t, ctx)
 }
 
-pub fn run_scenario(sc: &Scenario, t: &mut Tape, ctx: &mut Ctx) -> Verdict {
-    ctx.eval();
+pub struct Executed {
+    pub net: Net,
+    pub world: World,
+    pub ex: Exec,
+    pub end: RunEnd,
+}
+
+pub fn execute(sc: &Scenario, t: &mut Tape) -> Executed {
     fastrand::seed(7);
     let net = Net::new();
     {
@@ -613,10 +692,16 @@ pub fn run_scenario(sc: &Scenario, t: &mut Tape, ctx: &mut Ctx) -> Verdict {
     };
     let mut ex = Exec::new();
     let sp = ex.spawner.clone();
-    ex.spawn("server-main", server_main(net.clone(), sc.grease[1], sc.exchanges.clone(), world.server.clone(), world.server_driver.clone(), world.unmatched.clone(), sp.clone()));
+    ex.spawn("server-main", server_main(net.clone(), sc.config[1], sc.server_shutdowns.clone(), sc.exchanges.clone(), world.server.clone(), world.server_driver.clone(), world.unmatched.clone(), sp.clone()));
     ex.spawn("client-main", client_main(net.clone(), sc.clone(), world.client.clone(), world.client_driver.clone(), sp.clone(), world.outstanding.clone(), world.master.clone()));
     let mut closer = Closer { master: world.master.clone(), done: false };
     let end = ex.run(&net, &mut closer, t, sc.style, 600_000);
+    Executed { net, world, ex, end }
+}
+
+pub fn run_scenario(sc: &Scenario, t: &mut Tape, ctx: &mut Ctx) -> Verdict {
+    ctx.eval();
+    let Executed { net, world, ex, end } = execute(sc, t);
     let case = || {
         json!({
             "scenario": scenario_json(sc),
@@ -704,7 +789,7 @@ pub fn run_scenario(sc: &Scenario, t: &mut Tape, ctx: &mut Ctx) -> Verdict {
         let accepted: Vec<u64> = d.accepts.iter().filter_map(|a| a.as_ref().ok().and_then(|x| *x)).collect();
         let mut sorted = accepted.clone();
         sorted.sort();
-        if sorted != (0..n as u64).map(|k| k * 4).collect::<Vec<_>>() {
+        if sorted != (0..sc.exchanges.len() as u64).map(|k| k * 4).collect::<Vec<_>>() {
             return Err(Failure::new(format!("server accepted streams {accepted:?}"), case()));
         }
         match d.accepts.last() {
